@@ -209,6 +209,37 @@ def wrapper_points_inside(tier):
         out.append(('answer-vector-zeroed', np.all(c.args[4] == 0) and len(c.args[4]) == 3, dict(tag, got=list(map(int, c.args[4])))))
         out.append(('points-and-polygon-passed', np.array_equal(c.args[2], pts) and np.array_equal(c.args[3], poly), tag))
         out.append(('atol-default', float(c.args[0]) == 1e-8, tag))
+    # coordinates reach the kernel bit for bit at any scale (no snapping / rounding in the wrapper)
+    for scale in (1e-4, 1.0, 1e5):
+        p2, q2 = poly * scale * 1.000000123456789, pts * scale * 1.000000123456789
+        rec = Recorder()
+        with patched_module(gutils, 'c_hydrodiy_gis', rec):
+            gutils.points_inside_polygon(q2, p2)
+        c = rec.calls[-1]
+        out.append(('coordinates-passed-bit-for-bit', np.array_equal(c.args[2], q2) and np.array_equal(c.args[3], p2), dict(scale=scale)))
+    # the cell centres tested are those of the grid AS IT IS at the time of the call (moved / re-sized grid, clone)
+    g = G.Grid('g', 3, 2, cellsize=0.5, xllcorner=-1.0, yllcorner=2.0)
+    seq = [('first', g, -1.0, 2.0, 0.5)]
+    g2 = g.clone()
+    for step in ('moved-clone', 'resized-clone'):
+        rec = Recorder()
+        with patched_module(gutils, 'c_hydrodiy_gis', rec):
+            try:
+                g.cells_inside_polygon(poly)
+                if step == 'moved-clone':
+                    g2 = g.clone()
+                    g2.xllcorner = 4.0
+                    g2.yllcorner = -3.0
+                    xll, yll, csz = 4.0, -3.0, 0.5
+                else:
+                    g2 = G.Grid('h', 3, 2, cellsize=0.25, xllcorner=-1.0, yllcorner=2.0)
+                    xll, yll, csz = -1.0, 2.0, 0.25
+                g2.cells_inside_polygon(poly)
+            except Exception as e:
+                pass
+        calls = [c for c in rec.calls if c.name == 'points_inside_polygon']
+        want = np.array([[xll + csz * (k % 3 + 0.5), yll + csz * (2 - 1 - k // 3 + 0.5)] for k in range(6)])
+        out.append(('cell-centres-of-the-current-geometry', len(calls) == 2 and calls[1].args[2].shape == want.shape and np.allclose(calls[1].args[2], want), dict(step=step)))
     for (nr, nc) in [(2, 2), (2, 5), (5, 2), (1, 4)]:
         g = G.Grid('g', nc, nr, cellsize=0.5, xllcorner=-1.0, yllcorner=2.0)
         rec = Recorder()
